@@ -48,6 +48,16 @@ CHECKS = {
         note=LEVEL_NOTE_COMMON + "Axioms: none. petgraph 0.7.1 MatrixGraph behaviour is modelled (not verified) and correspondence-tested; hash iteration order is removed by sorting.",
         technique="Coq proof (refinement with representation invariant, induction over histories) + differential correspondence + proved spec checker as oracle",
         design="§7 C08"),
+    "C15": dict(
+        category="translation_validation",
+        text="petgraph's astar is a dependency and is not modelled. Theorems (Coq, all weighted digraphs, all node pairs, all answers): the checker check_answer is sound - "
+             "an accepted Some(p) starts at s, ends at t, follows existing edges in direction and no path of any length is lighter; an accepted None means an end is absent or t "
+             "is unreachable. Every answer of the implementation for every ordered pair of every generated graph (built through add/remove histories, cycles, zero weights, ties) "
+             "is validated by the extracted checker on the specification graph of the run.",
+        note=LEVEL_NOTE_COMMON + "Axioms: none. The unbounded theorem is about the checker; the implementation is covered per explored input (translation validation). "
+             "Completeness of the checker (closedness of the Bellman-Ford labels) is checked per query, not proved.",
+        technique="Coq-proved sound optimality checker (closed-labelling argument) applied to every implementation answer (translation validation)",
+        design="§7 C15"),
 }
 
 ALL = [f"C{n:02d}" for n in range(1, 20)]
@@ -67,7 +77,7 @@ def main():
             "evidence_file": f"/verif/evidence/{pid}.json",
             "replay_cmd_template": f"python3 bin/check.py {pid} --replay {{path}}",
             "engine": "coq-proof+correspondence",
-            "level_claimed": {"category": "proof", "text": c["text"], "design_ref": c["design"]},
+            "level_claimed": {"category": c.get("category", "proof"), "text": c["text"], "design_ref": c["design"]},
             "level_note": c["note"],
             "technique": c["technique"],
         })
